@@ -59,6 +59,39 @@ func c07PriorResponse(resp *Response, n int) {
 	}
 }
 
+// c07Streamed: resp is used by a streaming reader (a streaming HostClient for viaClient), the
+// stream is drained and closed, and the object is recycled: Reset, or (odd) released to the
+// pool and acquired again. Returns the object to use next.
+func c07Streamed(resp *Response, viaClient bool, recycleViaPool bool) *Response {
+	const wire = "HTTP/1.1 200 OK\r\nContent-Length: 5\r\n\r\nhello"
+	if viaClient {
+		hc := &HostClient{Addr: "h:80", StreamResponseBody: true, MaxIdemponentCallAttempts: 1,
+			Dial: func(string) (net.Conn, error) {
+				return &c07ClientConn{c07Conn: c07Conn{segs: [][]byte{[]byte(wire)}}}, nil
+			}}
+		var req Request
+		req.SetRequestURI("http://h/prior")
+		if err := hc.Do(&req, resp); err != nil {
+			panic("c07: prior streaming Do: " + err.Error())
+		}
+	} else {
+		resp.StreamBody = true
+		if err := resp.Read(bufio.NewReader(strings.NewReader(wire))); err != nil {
+			panic("c07: prior streaming read: " + err.Error())
+		}
+	}
+	if bs := resp.BodyStream(); bs != nil {
+		io.Copy(io.Discard, bs) //nolint:errcheck
+	}
+	resp.CloseBodyStream() //nolint:errcheck
+	if recycleViaPool {
+		ReleaseResponse(resp)
+		return AcquireResponse()
+	}
+	resp.Reset()
+	return resp
+}
+
 func c07PriorRequest(req *Request, n int) {
 	if n > 0 {
 		wire := append([]byte("POST /prior HTTP/1.1\r\nHost: h\r\nContent-Length: "+strconv.Itoa(n)+"\r\n\r\n"), make([]byte, n)...)
@@ -135,6 +168,7 @@ func c07Sum(a []int) int {
 // scripted connection: Read returns the next segment, EOF at the end
 type c07Conn struct {
 	segs       [][]byte
+	after100   []int // segment indices withheld until the server has written "100 Continue"
 	si, off    int
 	out        bytes.Buffer
 	dispatches []string
@@ -149,6 +183,11 @@ func (c *c07Conn) Read(p []byte) (int, error) {
 	}
 	if c.si >= len(c.segs) {
 		return 0, io.EOF
+	}
+	for _, g := range c.after100 {
+		if g == c.si && bytes.Count(c.out.Bytes(), []byte("HTTP/1.1 100 Continue")) == 0 {
+			return 0, io.EOF // the client never got its 100: it gives up
+		}
 	}
 	n := copy(p, c.segs[c.si][c.off:])
 	c.off += n
@@ -274,7 +313,7 @@ func c07Alloc(f func()) uint64 {
 
 // c07Client: the response through HostClient with MaxResponseBodySize: Do into a Response that
 // has held a body of pre bytes before, and Get into a dst with capacity pre.
-func c07Client(h *c07T, v *c07Vec, lr int, real []int, respSegs [][]byte, data []byte, pre int) {
+func c07Client(h *c07T, v *c07Vec, lr int, real []int, respSegs [][]byte, data []byte, pre int, streamed, viaPool bool) {
 	dial := func(string) (net.Conn, error) {
 		cp := make([][]byte, len(respSegs))
 		copy(cp, respSegs)
@@ -283,17 +322,20 @@ func c07Client(h *c07T, v *c07Vec, lr int, real []int, respSegs [][]byte, data [
 	{
 		hc := &HostClient{Addr: "h:80", MaxResponseBodySize: lr, MaxIdemponentCallAttempts: 1, Dial: dial}
 		var req Request
-		var resp Response
-		c07PriorResponse(&resp, pre)
+		resp := &Response{}
+		c07PriorResponse(resp, pre)
+		if streamed {
+			resp = c07Streamed(resp, true, viaPool)
+		}
 		req.SetRequestURI("http://h/b")
-		err := hc.Do(&req, &resp)
+		err := hc.Do(&req, resp)
 		if err == nil {
 			h.check("HostClient.Do", v, lr, real, "accepted", len(resp.Body()), bytes.Equal(resp.Body(), data), false, "")
 		} else {
 			h.check("HostClient.Do", v, lr, real, "rejected", 0, false, errors.Is(err, ErrBodyTooLarge), "error "+err.Error())
 		}
 	}
-	{
+	if !streamed {
 		hc := &HostClient{Addr: "h:80", MaxResponseBodySize: lr, MaxIdemponentCallAttempts: 1, Dial: dial}
 		var dst []byte
 		if pre > 0 {
@@ -492,8 +534,9 @@ func TestVerifC07BodyLimit(t *testing.T) {
 					bodySegs = c07Chunked(data, real)
 				}
 				pre := c07Precap(v.Precap, lr)
+				streamed := v.Precap == "streamed"
 				// (1) live server (no destination-capacity dimension)
-				if pre == 0 {
+				if pre == 0 && !streamed {
 					segs := [][]byte{[]byte("POST /b HTTP/1.1\r\nHost: h\r\n" + frame + "\r\n")}
 					segs = append(segs, bodySegs...)
 					segs = append(segs, canary)
@@ -510,7 +553,7 @@ func TestVerifC07BodyLimit(t *testing.T) {
 					}
 				}
 				// (2) Request.ReadLimitBody
-				{
+				if !streamed {
 					r := &c07Conn{segs: append([][]byte{[]byte("POST /b HTTP/1.1\r\nHost: h\r\n" + frame + "\r\n")}, bodySegs...)}
 					var req Request
 					c07PriorRequest(&req, pre)
@@ -525,8 +568,11 @@ func TestVerifC07BodyLimit(t *testing.T) {
 				respSegs := append([][]byte{[]byte("HTTP/1.1 200 OK\r\n" + frame + "\r\n")}, bodySegs...)
 				{
 					r := &c07Conn{segs: respSegs}
-					var resp Response
-					c07PriorResponse(&resp, pre)
+					resp := &Response{}
+					c07PriorResponse(resp, pre)
+					if streamed {
+						resp = c07Streamed(resp, false, nvec%2 == 1)
+					}
 					err := resp.ReadLimitBody(bufio.NewReader(r), lr)
 					if err == nil {
 						h.check("Response.ReadLimitBody", &v, lr, real, "accepted", len(resp.Body()), bytes.Equal(resp.Body(), data), false, "")
@@ -537,10 +583,10 @@ func TestVerifC07BodyLimit(t *testing.T) {
 				// (4) HostClient with MaxResponseBodySize (sampled): Do into a (reused) Response and
 				// Get into a caller-supplied dst of the given capacity
 				if nvec%7 == 0 || tr == lr || tr == lr+1 {
-					c07Client(h, &v, lr, real, respSegs, data, pre)
+					c07Client(h, &v, lr, real, respSegs, data, pre, streamed, nvec%2 == 1)
 				}
 				// (5) MultipartFormWithLimit on an in-memory body of exactly tr bytes
-				if v.Kind == "fixed" && len(real) <= 1 && pre == 0 {
+				if v.Kind == "fixed" && len(real) <= 1 && pre == 0 && !streamed {
 					const pre = "--B\r\nContent-Disposition: form-data; name=\"f\"\r\n\r\n"
 					const post = "\r\n--B--\r\n"
 					if tr >= len(pre)+len(post) {
@@ -569,7 +615,7 @@ func TestVerifC07BodyLimit(t *testing.T) {
 				// pre-parsing is off): the declared length alone must decide, as for any fixed body.
 				// When the scaled total is too small to be a multipart entity it is only usable for
 				// the rejecting side: any real entity is then larger than the limit as well.
-				if v.Kind == "fixed" && len(real) <= 2 && pre == 0 {
+				if v.Kind == "fixed" && len(real) <= 2 && pre == 0 && !streamed {
 					const pre = "--B\r\nContent-Disposition: form-data; name=\"f\"\r\n\r\n"
 					const post = "\r\n--B--\r\n"
 					mtr := tr
@@ -652,12 +698,16 @@ func TestVerifC07BodyLimit(t *testing.T) {
 				}
 			case "probe":
 				pre := c07Precap(v.Precap, lr)
+				streamed := v.Precap == "streamed"
 				// identity-until-close response, pieces = reads (the stream makes no claim)
 				if v.Claim == "true" {
 					segs := append([][]byte{[]byte("HTTP/1.1 200 OK\r\nConnection: close\r\n\r\n")}, c07Split(data, real)...)
 					r := &c07Conn{segs: segs}
-					var resp Response
-					c07PriorResponse(&resp, pre)
+					resp := &Response{}
+					c07PriorResponse(resp, pre)
+					if streamed {
+						resp = c07Streamed(resp, false, nvec%2 == 1)
+					}
 					err := resp.ReadLimitBody(bufio.NewReader(r), lr)
 					if err == nil {
 						h.check("Response.ReadLimitBody/identity", &v, lr, real, "accepted", len(resp.Body()), bytes.Equal(resp.Body(), data), false, "")
@@ -665,12 +715,12 @@ func TestVerifC07BodyLimit(t *testing.T) {
 						h.check("Response.ReadLimitBody/identity", &v, lr, real, "rejected", 0, false, errors.Is(err, ErrBodyTooLarge), "error "+err.Error())
 					}
 					if nvec%5 == 0 || tr == lr || tr == lr+1 {
-						c07Client(h, &v, lr, real, segs, data, pre)
+						c07Client(h, &v, lr, real, segs, data, pre, streamed, nvec%2 == 1)
 					}
 				}
 				// decompression helpers: pieces = members / frames of a concatenated stream where the
 				// format has them (gzip, zstd); the gzip ISIZE trailer of the last member may lie
-				if pre == 0 && len(real) <= 3 {
+				if pre == 0 && !streamed && len(real) <= 3 {
 					c07Codecs(h, &v, lr, real, data)
 				}
 			case "head":
